@@ -124,6 +124,16 @@ def main():
         for nm, y, x in (('equal-histogram', base, perm), ('dependent', base, dep), ('self', base, list(base))):
             for cflag in (False, True):
                 big.append((nm, n, y, x, cflag))
+    # two vectors that are identical except in their very last rows / one row somewhere (not a self pair), at lengths around
+    # typical block sizes
+    for n in ([4101, 10000] if tier == 'quick' else [4097, 4101, 8191, 10000, 70000]):
+        base = [rng.randrange(6) for _ in range(n)]
+        for nm, where in (('differs-in-last-row', [n - 1]), ('differs-in-last-3-rows', [n - 3, n - 2, n - 1]), ('differs-in-one-middle-row', [n // 2])):
+            x2 = list(base)
+            for w_ in where:
+                x2[w_] = (x2[w_] + 1 + rng.randrange(4)) % 6
+            for cflag in (False, True):
+                big.append((nm, n, base, x2, cflag))
     req, meta = [], []
     sparse = {v: s for v, s in zip(range(6), [2 ** 20 - 1, 17, 500000, 3, 2 ** 19 + 1, 99])}
     for nm, n, y, x, cflag in big:
